@@ -1,3 +1,6 @@
+#[cfg(kani)]
+use crate::verif_shim::map::HashMap;
+#[cfg(not(kani))]
 use std::collections::HashMap;
 use std::sync::Arc;
 
